@@ -157,7 +157,96 @@ NONMUT = {
     'clip_noremask': lambda x, Pm: x.clip(1., 2., remask=False) if not x.numer and not x.is_bool() and x.is_float() else x,
     'sqrt_neg': lambda x, Pm: (x - 5.).sqrt() if not x.numer and not x.is_bool() else x,
     'log': lambda x, Pm: x.log() if not x.numer and not x.is_bool() and x.units is None else x,
+    # derivative bookkeeping that returns a new object (seeded change C08-G: a helper that starts with require_writable)
+    'without_derivs_preserve': lambda x, Pm: x.without_derivs(preserve=sorted(x.derivs)[:1] or ['t']),
+    'without_derivs_preserve_all': lambda x, Pm: x.without_derivs(preserve=sorted(x.derivs)),
+    'without_deriv': lambda x, Pm: x.without_deriv(sorted(x.derivs)[0]) if x.derivs else x,
+    'with_derivs': lambda x, Pm: x.with_derivs({'z': x.wod}),
+    'rename_deriv': lambda x, Pm: x.rename_deriv(sorted(x.derivs)[0], 'zz') if x.derivs and hasattr(x, 'rename_deriv') else x,
+    'as_this_type': lambda x, Pm: x.wod.copy().as_this_type(x), 'stack': lambda x, Pm: Pm.Qube.stack(x, x),
+    'rhs_of_setitem': lambda x, Pm: _assign_into_copy(x), 'as_float': lambda x, Pm: x.as_float() if not x.is_bool() else x,
+    'clone': lambda x, Pm: x.clone(), 'without_mask': lambda x, Pm: x.without_mask(), 'all_masked': lambda x, Pm: x.as_all_masked(),
+    'remask_or': lambda x, Pm: x.remask_or(True), 'expand_mask': lambda x, Pm: x.expand_mask(),
+    'without_units': lambda x, Pm: x.without_units(), 'into_units': lambda x, Pm: x.into_units(),
+    'broadcast_into': lambda x, Pm: x.broadcast_to((2,) + tuple(x.shape)),
 }
+
+
+def _assign_into_copy(x):
+    z = x.copy()
+    z[...] = x
+    return z
+
+
+# A read-only object used as the OTHER operand: the operation may not fail because of it and may not change it -
+# including the derivative-free twin it caches (seeded change C08-H: as_this_type() inserted converted derivatives into
+# the cached wod of a read-only right-hand side whose derivatives have another class than the target).
+def _ro_operands(Pm):
+    ang = Pm.Scalar(np.array([0.1, 0.2, 0.3]))
+    ang.insert_deriv('t', Pm.Scalar(np.array([1., 2., 3.])))
+    rot = Pm.Matrix3.x_rotation(ang)
+    v3 = Pm.Vector3(np.arange(9.).reshape(3, 3))
+    v3.insert_deriv('t', Pm.Vector(np.ones((3, 3))))
+    sc = Pm.Scalar(np.array([1., 2., 3.]), np.array([False, True, False]))
+    sc.insert_deriv('t', Pm.Scalar(np.array([4., 5., 6.])))
+    q = Pm.Quaternion(np.array([[1., 0., 0., 0.], [0., 1., 0., 0.], [0., 0., 1., 0.]]))
+    q.insert_deriv('t', Pm.Quaternion(np.ones((3, 4))))
+    m3 = q.to_matrix3()
+    return [('Matrix3.x_rotation', rot), ('Vector3+Vector deriv', v3), ('Scalar', sc), ('Quaternion.to_matrix3', m3)]
+
+
+_RHS_ACTIONS = {
+    'setitem_all': lambda t, r, Pm: t.__setitem__(Ellipsis, r),
+    'setitem_one': lambda t, r, Pm: t.__setitem__(0, r[0]),
+    'mask_where_replace': lambda t, r, Pm: t.mask_where(np.array([True, False, True]), replace=r),
+    'stack': lambda t, r, Pm: Pm.Qube.stack(t, r),
+    'as_this_type': lambda t, r, Pm: t.as_this_type(r),
+    'add': lambda t, r, Pm: (t + r) if not isinstance(r, Pm.Matrix3) else (t * r),
+    'eq': lambda t, r, Pm: t == r,
+}
+
+
+def _deep_state(x):
+    w = x.wod
+    return {'snap': lib.canon(snapshot(x)), 'ro': bool(x.readonly), 'wod_keys': sorted(w._derivs_),
+            'wod_ro': bool(w.readonly), 'nod_keys': sorted(x.without_derivs()._derivs_),
+            'deriv_classes': {k: type(d).__name__ for k, d in x._derivs_.items()}}
+
+
+def rhs_scenarios(Pm):
+    """-> list of (case, failures)"""
+    out = []
+    names = [n for n, _ in _ro_operands(Pm)]
+    for idx, oname in enumerate(names):
+        for aname in sorted(_RHS_ACTIONS):
+            for warm in (True, False):
+                r = _ro_operands(Pm)[idx][1].as_readonly()
+                held = r.wod if warm else None
+                t = r.copy()                      # a writable, independent object of the same class
+                t.delete_derivs()
+                before = _deep_state(r) if warm else None
+                base = {'snap': lib.canon(snapshot(r)), 'ro': bool(r.readonly)}
+                fails = []
+                try:
+                    with warnings.catch_warnings():
+                        warnings.simplefilter('ignore')
+                        _RHS_ACTIONS[aname](t, r, Pm)
+                    outc = 'ok'
+                except Exception as e:    # noqa
+                    outc = type(e).__name__ + ':' + str(e)[:80]
+                    if 'read-only' in str(e) or 'readonly' in str(e):
+                        fails.append(({'what': 'nonmutating-fails-on-readonly-operand', 'action': aname, 'operand': oname}, {'exc': outc}))
+                after = _deep_state(r)
+                if {'snap': after['snap'], 'ro': after['ro']} != base:
+                    fails.append(({'what': 'readonly-operand-changed', 'action': aname, 'operand': oname, 'field': 'content'}, {}))
+                if after['wod_keys'] or after['nod_keys'] or (held is not None and held._derivs_):
+                    fails.append(({'what': 'readonly-operand-changed', 'action': aname, 'operand': oname, 'field': 'wod-has-derivatives'},
+                                  {'wod_keys': after['wod_keys'], 'held_keys': sorted(held._derivs_) if held is not None else None}))
+                if before is not None and before != after:
+                    fails.append(({'what': 'readonly-operand-changed', 'action': aname, 'operand': oname, 'field': 'deep-state'},
+                                  {'before': before, 'after': after}))
+                out.append(({'part': 'rhs', 'operand': idx, 'operand_name': oname, 'action': aname, 'warm': warm, 'outcome': outc}, fails))
+    return out
 
 
 def snapshot(x, top=True):
@@ -599,6 +688,16 @@ def run(ctx):
                 continue
             seen.add(key)
             ctx.fail(sig, case, det)
+    # ---- read-only objects as the other operand
+    for case, fails in rhs_scenarios(Pm):
+        ctx.note_case(case, True)
+        ctx.count('rhs:' + case['action'])
+        seen = set()
+        for sig, det in fails:
+            key = lib.canon(sig)
+            if key not in seen:
+                seen.add(key)
+                ctx.fail(sig, case, det)
     # ---- correspondence histories
     hists = []
     for d in ((2, 3) if ctx.tier == 'quick' else (2, 3, 4)):
@@ -632,6 +731,16 @@ def replay(path):
     if 'case' not in d:
         print(json.dumps(d, indent=1)[:4000])
         return 1
+    if d['case']['part'] == 'rhs':
+        bad = 0
+        for case, fails in rhs_scenarios(Pm):
+            if (case['operand'], case['action'], case['warm']) == (d['case']['operand'], d['case']['action'], d['case']['warm']):
+                print(case)
+                for sig, det in fails:
+                    print('FAIL', sig, det)
+                    bad = 1
+        print('property holds on this scenario' if not bad else 'property FAILS on this scenario')
+        return bad
     ops = [tuple(o) for o in d['case']['ops']]
     if d['case']['part'] == 'oracle':
         trace, fails, W = run_history(ops, Pm)
